@@ -21,6 +21,7 @@ def swarm_knobs(rng, *, reorg=False, small_chunks=True, faults=True):
     k['orphans_return'] = rng.random() < 0.6
     k['txindex'] = rng.random() < 0.5
     k['max_hist_row'] = rng.choice([None, None, 2, 3, 7, 50])
+    k['urls'] = rng.choice([1, 1, 1, 2, 3])        # daemon URLs (all front the same chain)
     return k
 
 
